@@ -669,6 +669,10 @@ fn sync_and_items(tw: &mut Tw, op: &str) -> bool {
             };
             tw.obs(&format!(" {}", r));
         }
+        "misc" => {
+            let _ = tspan(tw.tok(1));
+            tw.obs(" 16 32 -1 0 0 1");
+        }
         "end" => {
             let rev = tw.tok(1) == "rev";
             let mut n = 0;
